@@ -21,6 +21,8 @@ def direct_discrete(pmf_items, x):
 
 
 def close(a, b, tol=1e-9):
+	if not (math.isfinite(float(a)) and math.isfinite(float(b))):
+		return float(a) == float(b)
 	return abs(float(a) - float(b)) <= tol * max(1.0, abs(float(a)), abs(float(b)))
 
 
@@ -282,6 +284,33 @@ def run(rep, drv):
 		same = mo is None or (close(n, mo[0]) and close(nb, mo[1]))
 		if bad or not same:
 			report('continuous families', '%s x=%r: %s%s' % (fam, x, '; '.join(bad), '' if same else ' | model formula gives %s' % mo), case, [n, nb], mo, bool(bad))
+	heavy_tails(rep)
+
+
+def heavy_tails(rep):
+	"""Arbitrary continuous distributions include heavy-tailed ones (finite mean, infinite variance): the COMPLEMENTARY second-order loss
+	1/2 E[((x-X)+)^2] and the complementary first-order loss E[(x-X)+] are lower-tail integrals and always finite."""
+	from stockpyl import loss_functions as lf
+	from scipy import stats, integrate
+	for nm, dist in (('pareto(1.5)', stats.pareto(1.5)), ('pareto(2,scale=10)', stats.pareto(2, scale=10)), ('lomax(1.8,scale=5)', stats.lomax(1.8, scale=5)),
+					 ('gamma(3,scale=2)', stats.gamma(3, scale=2))):
+		for q in (0.3, 0.6, 0.9):
+			x = float(dist.ppf(q))
+			case = {'family': 'heavy-tail', 'dist': nm, 'x': x}
+			rep.case('continuous families', case); rep.count('family:heavy-tail'); rep.tol_cmp += 1
+			try:
+				with warnings.catch_warnings():
+					warnings.simplefilter('ignore')
+					n2, n2b = lf.continuous_second_loss(x, dist)
+					_, nb = lf.continuous_loss(x, dist)
+				lo = float(dist.support()[0])
+				d2b = 0.5 * integrate.quad(lambda y: (x - y) ** 2 * dist.pdf(y), lo, x, limit=200)[0]
+				dnb = integrate.quad(lambda y: (x - y) * dist.pdf(y), lo, x, limit=200)[0]
+				if not (close(n2b, d2b, 1e-6) and close(nb, dnb, 1e-6)):
+					rep.diff('continuous families', '%s x=%r: complementary losses (first %r, second %r) != lower-tail integrals (%r, %r)' % (nm, x, nb, n2b, dnb, d2b), case,
+							 py=[float(nb), float(n2b)], model=None, oracle=True, theorem=THEOREM)
+			except Exception as e:
+				rep.diff('continuous families', '%s x=%r raised %s' % (nm, x, err_enum(e)), case, oracle=True, theorem=THEOREM)
 
 
 def replay(rep, drv, doc):
